@@ -323,3 +323,16 @@ func (w *World) SignedTRC(a APayload, signers []int) cppki.SignedTRC {
 	}
 	return dec
 }
+
+func uint64v(x int) scrypto.Version { return scrypto.Version(x) }
+
+func durationOf(x int) time.Duration { return time.Duration(x) }
+
+func signerInfos(raw []byte, w *World, signers []int) []protocol.SignerInfo {
+	var sis []protocol.SignerInfo
+	for _, i := range signers {
+		c := w.Cert(i)
+		sis = append(sis, SignerInfo(raw, c.X, c.Key))
+	}
+	return sis
+}
